@@ -272,6 +272,88 @@ theorem ok_exits (env : Env) (sub : Query → Res) (d : Nat) (q : Query) (qid : 
           · rename_i hf; exact hf
           · simp at h
 
+/-! ## no panic -/
+
+/-- no response of the upstream has an RRSIG covering DNSKEY without a DNSKEY of that owner in its section -/
+def NoOrphan (env : Env) : Prop :=
+  ∀ q qid m, upMsg env q = some (qid, m) → ∀ sec, sec < 3 → orphanDnskeyRrsigIn (m.sec sec) = false
+
+theorem verdicts_no_panic {env : Env} {sub : Query → Res} (hsub : ∀ q, sub q ≠ .abort "panic")
+    {d : Nat} {q : Query} {qid secNo : Nat} {sec : List Rec} (hno : orphanDnskeyRrsigIn sec = false)
+    {kv : GKey × GV} (hkv : kv ∈ verdicts env sub d q qid secNo sec) : kv.2 ≠ .abort "panic" := by
+  intro hp
+  obtain ⟨hk, hv⟩ := mem_verdicts hkv
+  rw [hv] at hp
+  unfold verifyGroup at hp
+  dsimp only at hp
+  split at hp
+  · rename_i ht
+    rcases verifyDnskeyRrset_abort _ _ _ _ _ _ hp with ⟨q', hq'⟩ | he
+    · exact hsub q' hq'
+    · have := orphan_of_empty_group hk (by simpa using ht) he
+      rw [hno] at this
+      simp at this
+  · rcases verifyDefaultRrset_abort _ _ _ _ _ _ hp with hm | ⟨q', hq'⟩
+    · revert hm; decide
+    · exact hsub q' hq'
+
+/-- **No panic (partial).**  Full statement: `validate env fuel d q ≠ .abort "panic"` for every upstream — false
+for the code as it is (`orphan_dnskey_rrsig_panics`).  Proved under `NoOrphan env`: the only panic site of
+the validator (`dnskey_proofs.pop().unwrap()`) is reached exactly through an RRSIG covering DNSKEY that
+comes without a DNSKEY record. -/
+theorem no_panic_partial {env : Env} (hno : NoOrphan env) :
+    ∀ (fuel d : Nat) (q : Query), validate env fuel d q ≠ .abort "panic" := by
+  intro fuel
+  induction fuel with
+  | zero => intro d q; simp [validate]
+  | succ n ih =>
+    intro d q h
+    unfold validate at h
+    have hsub : ∀ q', validate env n (d + 1) q' ≠ .abort "panic" := ih (d + 1)
+    -- the message being verified
+    have key : ∀ m0, upMsg env q = some ((env.up q).qid, m0) →
+        verifyMsg env (validate env n (d + 1)) (d + 1) q (env.up q).qid m0 ≠ .abort "panic" := by
+      intro m0 hup hv
+      have hsec := hno q _ m0 hup
+      unfold verifyMsg at hv
+      dsimp only at hv
+      split at hv
+      · rename_i w hw
+        injection hv with hv
+        subst hv
+        obtain ⟨kv, hkv, hp⟩ := firstAbort_panic hw
+        simp only [List.mem_append] at hkv
+        rcases hkv with (hkv | hkv) | hkv
+        · exact verdicts_no_panic hsub (by simpa [Msg.sec] using hsec 0 (by omega)) hkv hp
+        · exact verdicts_no_panic hsub (by simpa [Msg.sec] using hsec 1 (by omega)) hkv hp
+        · exact verdicts_no_panic hsub (by simpa [Msg.sec] using hsec 2 (by omega)) hkv hp
+      · split at hv
+        · simp at hv
+        · split at hv
+          · split at hv <;> simp at hv
+          · split at hv <;> simp at hv
+          · simp at hv
+          · simp at hv
+          · split at hv
+            · simp at hv
+            · split at hv
+              · rename_i w hf
+                injection hv with hv
+                subst hv
+                rcases findDs_abort _ _ _ _ hf with hm | ⟨q', hq'⟩
+                · revert hm; decide
+                · exact hsub q' hq'
+              · simp at hv
+              · simp at hv
+    unfold verifyResponse at h
+    split at h
+    · simp at h
+    · revert h; decide
+    · rename_i m hm
+      exact key _ (by unfold upMsg; rw [hm]) h
+    · rename_i m hm
+      exact key _ (by unfold upMsg; rw [hm]) h
+
 /-! ## the server's mapping (`build_forwarded_response`) -/
 
 theorem summaryGo_secure (rs : List Rec) (st : Option Bool) (h : summaryGo rs st = .secure) :
